@@ -107,7 +107,7 @@ def build_driver():
 
 # ---------------------------------------------------------------- C++ side
 INCLUDES = ["-I%s/include" % REPO, "-I%s/external/tl" % REPO, "-I/usr/include/eigen3", "-I" + HARNESS]
-def build_bin(name, source, defines=(), flags=("-std=c++11", "-O1"), libs=("-lgmpxx", "-lgmp"), compiler="g++", timeout=1500):
+def build_bin(name, source, defines=(), flags=("-std=c++11", "-O1"), libs=("-lgmpxx", "-lgmp", "-lmpfr"), compiler="g++", timeout=1500):
     """compile one harness binary from /repo's current tree; cache keyed on content hash + flags"""
     key = hashlib.sha256((repo_hash() + name + source + " ".join(defines) + " ".join(flags) + compiler).encode()).hexdigest()[:16]
     out = os.path.join(BUILD, "%s-%s" % (name, key))
